@@ -39,8 +39,8 @@ def fits(f: Fraction, dt: str) -> bool:
     """f is exactly representable in that numpy type (and so is its square when it is a narrow integer: the square of a
     narrow numpy integer is taken of the python number, but the generators stay clear of that corner here)"""
     import numpy as np
-    if dt.startswith("int"):
-        return f.denominator == 1 and abs(f) * abs(f) <= np.iinfo(dt).max
+    if dt.startswith(("int", "uint")):
+        return f.denominator == 1 and abs(f) * abs(f) <= np.iinfo(dt).max and f >= np.iinfo(dt).min
     x = f.numerator / f.denominator
     with np.errstate(all="ignore"):
         y = np.dtype(dt).type(x)
@@ -106,6 +106,8 @@ def pick_scalar(rng, exact: bool, divide: bool = False):
 def spelled(op) -> str:
     """the call as a reader would write it"""
     c = f"{op.get('k')}({op.get('c')})"
+    if op.get("sp") and (op["op"] == "spell" or op.get("spelling")):
+        return f"{op['sp']} [c = {c}]"
     return {"mul": f"{c} * h" if op.get("reflected") else f"h * {c}", "imul": f"h *= {c}", "div": f"h / {c}",
             "idiv": f"h /= {c}"}.get(op["op"], op["op"])
 
@@ -146,6 +148,159 @@ def free_story(ops, k):
     return "after " + ", ".join(told) if told else "no block so far"
 
 
+# ---------------------------------------------------------------------------------------------- spellings of the arithmetic
+# Every operand ORDER and every numpy ENTRY POINT through which a number c (python / numpy scalar of any width, 0-d array,
+# n-d array) and a histogram h (g: a second histogram) can meet in an arithmetic expression.  None of them is an
+# augmented assignment on a histogram: whatever comes back, h must be what it was.  What the unchanged library does:
+#   c*h, h*c, h/c (and their dunder / operator-module forms)     -> a histogram for a scalar c, TypeError otherwise
+#   c/h, c//h, c-h, c**h, c%h, -h, +h, abs(h)                    -> TypeError (NotImplemented from the dunder itself)
+#   np.<ufunc>(.., h, ..), numpy-scalar.__rmul__(h), h // np.int64(2), h ** np.float64(2) ...
+#        -> numpy reads h through __array__ as the bare array of its frequencies and returns a bare ARRAY (no histogram)
+# family: what the statement pins when a HISTOGRAM comes back
+#   mul / div  : it is h scaled by c (by 1/c): contents, missed values, statistics times the factor, squared errors times
+#                its square; a negative factor or an n-d array operand must not give one without free arithmetics
+#   rdiv       : a histogram as the divisor -- never a histogram, in any mode
+#   hh         : histogram (*, /) histogram -- never a histogram, in any mode
+#   neg        : (-1) * h: like mul with the factor -1
+#   unpinned   : the statement says nothing about the result (subtraction, powers, remainders, addition, +h, abs(h))
+SPELLINGS = {
+    "c*h": "mul", "h*c": "mul", "np.multiply(c,h)": "mul", "np.multiply(h,c)": "mul", "c.__mul__(h)": "mul",
+    "c.__rmul__(h)": "mul", "h.__mul__(c)": "mul", "h.__rmul__(c)": "mul", "operator.mul(c,h)": "mul", "c*=h": "mul",
+    "h/c": "div", "np.divide(h,c)": "div", "np.true_divide(h,c)": "div", "h.__truediv__(c)": "div",
+    "operator.truediv(h,c)": "div",
+    "c/h": "rdiv", "np.divide(c,h)": "rdiv", "np.true_divide(c,h)": "rdiv", "c.__truediv__(h)": "rdiv",
+    "operator.truediv(c,h)": "rdiv", "h.__rtruediv__(c)": "rdiv", "c/=h": "rdiv", "c//h": "rdiv",
+    "np.floor_divide(c,h)": "rdiv", "divmod(c,h)": "rdiv", "np.reciprocal(h)": "rdiv",
+    "np.multiply(h,g)": "hh", "np.divide(h,g)": "hh", "np.true_divide(h,g)": "hh",
+    "-h": "neg", "np.negative(h)": "neg",
+    "+h": "unpinned", "abs(h)": "unpinned", "np.positive(h)": "unpinned", "np.absolute(h)": "unpinned",
+    "c-h": "unpinned", "np.subtract(c,h)": "unpinned", "np.subtract(h,c)": "unpinned", "c**h": "unpinned", "h**c": "unpinned",
+    "np.power(h,c)": "unpinned", "h//c": "unpinned", "c%h": "unpinned", "np.add(h,g)": "unpinned", "np.add(c,h)": "unpinned",
+}
+# the spellings in which the statement DEMANDS a histogram for a positive python / numpy scalar
+MUST_ACCEPT = {"c*h", "h*c", "h/c"}
+# what the Lean model can follow: the operator forms (the ufunc forms never reach the library's arithmetic: dropped there)
+MODEL_SPELLING = {"c*h": ("mul", True), "h*c": ("mul", False), "h/c": ("div", False)}
+MODEL_KINDS = {"pyint", "pyfloat", "int16", "int32", "int64", "float16", "float32", "float64"}
+NP_INTS = ["int8", "int16", "int32", "int64", "uint8", "uint16", "uint32", "uint64"]
+NP_FLOATS = ["float16", "float32", "float64"]
+SCALAR_KINDS = set(["pyint", "pyfloat"] + NP_INTS + NP_FLOATS)
+
+
+def spell_fn(sp):
+    import operator
+    import numpy as np
+    return {
+        "c*h": lambda c, h, g: c * h, "h*c": lambda c, h, g: h * c,
+        "np.multiply(c,h)": lambda c, h, g: np.multiply(c, h), "np.multiply(h,c)": lambda c, h, g: np.multiply(h, c),
+        "c.__mul__(h)": lambda c, h, g: c.__mul__(h), "c.__rmul__(h)": lambda c, h, g: c.__rmul__(h),
+        "h.__mul__(c)": lambda c, h, g: h.__mul__(c), "h.__rmul__(c)": lambda c, h, g: h.__rmul__(c),
+        "operator.mul(c,h)": lambda c, h, g: operator.mul(c, h), "c*=h": lambda c, h, g: operator.imul(c, h),
+        "h/c": lambda c, h, g: h / c, "np.divide(h,c)": lambda c, h, g: np.divide(h, c),
+        "np.true_divide(h,c)": lambda c, h, g: np.true_divide(h, c), "h.__truediv__(c)": lambda c, h, g: h.__truediv__(c),
+        "operator.truediv(h,c)": lambda c, h, g: operator.truediv(h, c),
+        "c/h": lambda c, h, g: c / h, "np.divide(c,h)": lambda c, h, g: np.divide(c, h),
+        "np.true_divide(c,h)": lambda c, h, g: np.true_divide(c, h), "c.__truediv__(h)": lambda c, h, g: c.__truediv__(h),
+        "operator.truediv(c,h)": lambda c, h, g: operator.truediv(c, h), "h.__rtruediv__(c)": lambda c, h, g: h.__rtruediv__(c),
+        "c/=h": lambda c, h, g: operator.itruediv(c, h), "c//h": lambda c, h, g: c // h,
+        "np.floor_divide(c,h)": lambda c, h, g: np.floor_divide(c, h), "divmod(c,h)": lambda c, h, g: divmod(c, h),
+        "np.reciprocal(h)": lambda c, h, g: np.reciprocal(h),
+        "np.multiply(h,g)": lambda c, h, g: np.multiply(h, g), "np.divide(h,g)": lambda c, h, g: np.divide(h, g),
+        "np.true_divide(h,g)": lambda c, h, g: np.true_divide(h, g),
+        "-h": lambda c, h, g: -h, "np.negative(h)": lambda c, h, g: np.negative(h),
+        "+h": lambda c, h, g: +h, "abs(h)": lambda c, h, g: abs(h), "np.positive(h)": lambda c, h, g: np.positive(h),
+        "np.absolute(h)": lambda c, h, g: np.absolute(h),
+        "c-h": lambda c, h, g: c - h, "np.subtract(c,h)": lambda c, h, g: np.subtract(c, h),
+        "np.subtract(h,c)": lambda c, h, g: np.subtract(h, c), "c**h": lambda c, h, g: c ** h, "h**c": lambda c, h, g: h ** c,
+        "np.power(h,c)": lambda c, h, g: np.power(h, c), "h//c": lambda c, h, g: h // c, "c%h": lambda c, h, g: c % h,
+        "np.add(h,g)": lambda c, h, g: np.add(h, g), "np.add(c,h)": lambda c, h, g: np.add(c, h),
+    }[sp]
+
+
+def arraylike(k) -> bool:
+    return isinstance(k, str) and k.startswith("nd:")
+
+
+def spell_carrier(op, h):
+    """the number op["c"] in the carrier op["k"]: everything impl1.num_of knows, and "nd:<dtype>": an array of the
+    histogram's shape that holds the number everywhere"""
+    import numpy as np
+    from .. import impl1
+    k = op["k"]
+    if arraylike(k):
+        f = Fraction(op["c"])
+        a = np.full(h.shape, int(f) if f.denominator == 1 else f.numerator / f.denominator, dtype=np.dtype(k[3:]))
+        if not all(Fraction(x) == f for x in a.ravel().tolist()):
+            raise KeyError(f"carrier {k} cannot hold {f}")
+        return a
+    c = impl1.num_of(op["c"], k)
+    if k in SCALAR_KINDS and Fraction(c.item() if hasattr(c, "item") else c) != Fraction(op["c"]):
+        raise KeyError(f"carrier {k} cannot hold {op['c']}")
+    return c
+
+
+def outcome_of(r) -> str:
+    """what came back from a spelling, as far as the statement cares: a histogram ("hist"), nothing at all
+    ("notimpl": the dunder's own NotImplemented), a bare array / number that numpy computed from the frequencies ("array"),
+    a container with a histogram inside ("hist_inside") or something else ("other:<type>")"""
+    import numpy as np
+    from physt.histogram_base import HistogramBase
+    from physt.histogram_collection import HistogramCollection
+    if isinstance(r, (HistogramBase, HistogramCollection)):
+        return "hist"
+    if r is NotImplemented:
+        return "notimpl"
+    if isinstance(r, np.ndarray) and r.dtype == object:
+        return "hist_inside" if any(outcome_of(x) in ("hist", "hist_inside") for x in r.ravel().tolist()) else "array"
+    if isinstance(r, (np.ndarray, np.generic, int, float, complex)):
+        return "array"
+    if isinstance(r, (tuple, list)):
+        kinds = {outcome_of(x) for x in r}
+        if kinds & {"hist", "hist_inside"}:
+            return "hist_inside"
+        return "array" if kinds <= {"array"} else "other:" + type(r).__name__
+    return "other:" + type(r).__name__
+
+
+def spell_step(s, op, log):
+    """one spelling on the real library; returns "ok" (a histogram came back: stored in op["out"]), REFUSED (an exception),
+    "notimpl", "array", "hist_inside" or "other:<type>" (nothing stored)"""
+    import numpy as np
+    from physt.histogram_base import HistogramBase
+    from .. import impl1
+    if op["sp"] not in SPELLINGS:
+        raise KeyError(op["sp"])
+    fn = spell_fn(op["sp"])
+    try:
+        h = s.get(op["h"])
+        if h is None:
+            raise IndexError("empty register")
+        g = s.get(op.get("o", 0))
+        c = spell_carrier(op, h)
+        with np.errstate(all="ignore"):
+            r = fn(c, h, g)
+    except KeyError:
+        raise
+    except Exception as e:
+        log.append(f"{op['sp']}: {type(e).__name__}: {e}"[:200])
+        return impl1.REFUSED
+    what = outcome_of(r)
+    if what == "hist" and isinstance(r, HistogramBase):
+        s.set(op["out"], r)
+        return "ok"
+    log.append(f"{op['sp']} with c = {op['k']}({op['c']}) returned {type(r).__name__}: {what}"[:200])
+    return "hist_inside" if what == "hist" else what
+
+
+def beyond_dtype(dtype: str, values) -> bool:
+    """an expected value that the (integer) content type cannot hold: numpy wraps around there, which no property is about"""
+    import numpy as np
+    if not (dtype.startswith("int") or dtype.startswith("uint")):
+        return False
+    info = np.iinfo(dtype)
+    return any(v is not None and not (info.min <= v <= info.max) for v in values)
+
+
 class C06(Hist1Prop):
     ID = "C06"
     GEN_TIE = ["statistics"]     # definitions regenerated from physt/statistics.py (harness/gen_tie.py)
@@ -161,6 +316,17 @@ class C06(Hist1Prop):
             "fill_n; stream:free_history: nested enable_free_arithmetics(True/False) blocks left normally, by an exception, by "
             "a refused h*h / h/h / 2/h (also uncaught through the outer block), negative factors and array operands inside "
             "(accepted) and after the blocks (refused, nothing changed); every case runs in a context of its own. "
+            "stream:spellings (side steps in three in ten of the 1-D / N-d chains and four in ten of the free-arithmetics "
+            "histories, and completely -- carrier x spelling x kind of histogram (weighted 1-D, filled 1-D, transformed 1-D, "
+            "2-d, transformed 2-d) x free arithmetics off / on -- in both tiers): every operand order and numpy entry point "
+            "of the arithmetic (c*h, h*c, np.multiply both ways, the dunder and operator-module forms, c*=h; h/c, np.divide / "
+            "np.true_divide(h, c); c/h, np.divide / np.true_divide / np.floor_divide(c, h), c.__truediv__(h), c/=h, c//h, "
+            "divmod, np.reciprocal(h); np.multiply / np.divide(h, g); -h, np.negative(h); and the forms the statement does not "
+            "pin: c-h, c**h, h**c, h//c, c%h, np.add, np.subtract, np.power, +h, abs(h)) with python / numpy scalars of every "
+            "width, negative ones, 0-d arrays, bool, Fraction, Decimal and n-d arrays: a histogram as divisor or "
+            "histogram-with-histogram never yields a histogram; whatever yields no histogram changes none; a histogram that "
+            "comes back from a multiplication / division form is exactly the linear one (or must not come back: negative "
+            "factor, array operand without free arithmetics); c*h and h*c are the same histogram. "
             "non-trivial = non-zero contents and a factor != 1; distinct = hash of the op list")
     FIELDS = {"bins", "freq", "err2", "under", "over", "inner", "total", "dtype", "stats", "keep"}
 
@@ -220,6 +386,7 @@ class C06(Hist1Prop):
         src = {"init": init, "steps": steps, "bad": bad, "exact": exact}
         # (drawn last, from a generator of its own: the older draws of the case are what they were)
         self.decorate_steps(src, random.Random(rng.random()), share=0.35)
+        self.decorate_spellings(src, random.Random(rng.random()), share=0.3)
         return self.build(src)
 
     # ------------------------------------------------------------------ unusual carriers of the factor / divisor
@@ -263,6 +430,78 @@ class C06(Hist1Prop):
         if n:
             src["carriers"] = True
 
+    # ------------------------------------------------------------------ every operand order / numpy entry point
+    SPELL_POOL = sorted(SPELLINGS) + [sp for sp, fam in sorted(SPELLINGS.items()) if fam == "rdiv"] + ["c*h", "h*c", "h/c"]
+
+    @staticmethod
+    def pick_spelling(crng, free=False):
+        """stream:spellings -- one (spelling, c, carrier) of the random stream: c is a power of two (every product and
+        quotient stays exactly representable whatever the chain did before); mostly plain scalars of every width, then
+        negative ones, 0-d arrays / bool / Fraction / Decimal, and n-d arrays holding c everywhere"""
+        sp = crng.choice(C06.SPELL_POOL)
+        r = crng.random()
+        if r < 0.55:
+            c = crng.choice(["2", "4", "8", "1/2", "1/4", "2", "2"])
+            k = crng.choice(["pyint"] + NP_INTS) if Fraction(c).denominator == 1 and crng.random() < 0.65 else crng.choice(["pyfloat"] + NP_FLOATS)
+        elif r < 0.7:
+            c = crng.choice(["-2", "-4", "-1/2", "-1"])
+            k = crng.choice(["pyint", "int64", "int8", "int32"]) if Fraction(c).denominator == 1 and crng.random() < 0.6 else crng.choice(["pyfloat", "float64", "float32"])
+        elif r < 0.87:
+            c = crng.choice(["2", "4", "1/2"])
+            pool = ["0d:float64", "0d:float64", "red0d:float64", "0d:float32"] + (["0d:int64", "0d:int8", "red0d:int64"] if Fraction(c).denominator == 1 else [])
+            if not free:        # (what free arithmetics makes of an object array is nobody's business here)
+                pool += ["fraction", "decimal", "pybool", "npbool"]
+            k = crng.choice(pool)
+            if k in ("pybool", "npbool"):
+                c = "1"
+        else:
+            c = crng.choice(["2", "4", "1/2"])
+            k = crng.choice(["nd:float64", "nd:float64", "nd:float32"] + (["nd:int64", "nd:uint8"] if Fraction(c).denominator == 1 else []))
+        return {"t": "spell", "sp": sp, "c": c, "k": k}
+
+    @staticmethod
+    def decorate_spellings(src, crng, share):
+        """stream:spellings on a 1-D chain: side steps (the result is never an operand) between the steps of the chain"""
+        if crng.random() >= share:
+            return
+        steps = list(src["steps"])
+        for _ in range(crng.choice([1, 2, 2, 3, 4])):
+            steps.insert(crng.randint(0, len(steps)), dict(C06.pick_spelling(crng), side=True))
+        src["steps"] = steps
+
+    @staticmethod
+    def spell_nd(ops, nxt, crng, tags, share):
+        """stream:spellings on an N-d chain: on the histogram that is current where the side step is put"""
+        if crng.random() >= share:
+            return ops, nxt
+        ops = list(ops)
+        for _ in range(crng.choice([1, 2, 2, 3, 4])):
+            at = crng.randint(1, len(ops))
+            live = [o["out"] for o in ops[:at] if "out" in o and not o.get("two") and not o.get("expect_refused") and o["op"] != "spell"]
+            sp = C06.pick_spelling(crng)
+            ops.insert(at, {"op": "spell", "sp": sp["sp"], "h": crng.choice(live[-2:]), "o": 0, "c": sp["c"], "k": sp["k"], "out": nxt})
+            nxt += 1
+        tags.append("stream:spellings")
+        tags += sorted({"kind:spell:" + SPELLINGS[o["sp"]] for o in ops if o["op"] == "spell"})
+        return ops, nxt
+
+    @staticmethod
+    def spell_free(items, crng, share):
+        """stream:spellings in a free-arithmetics history: inside the blocks (of either value) and after them"""
+        if crng.random() >= share:
+            return
+
+        def bodies(its):
+            yield its
+            for it in its:
+                if it["t"] == "block":
+                    yield from bodies(it["body"])
+        for _ in range(crng.choice([1, 2, 3, 4])):
+            body = crng.choice(list(bodies(items)))
+            # (a block that is left by an exception nobody catches before the enclosing block stays the last item there)
+            hi = len(body) - 1 if body and body[-1]["t"] == "block" and body[-1].get("through") else len(body)
+            body.insert(crng.randint(0, hi), C06.pick_spelling(crng, free=True))
+
     def gen_filled(self, rng):
         """stream:filled -- a histogram without contents entered value by value / batch by batch (so its statistics are
         valid), then a chain of scalings in which nearly every factor comes in an unusual carrier"""
@@ -296,6 +535,7 @@ class C06(Hist1Prop):
                           "zero_div", "neg_imul"])
         src = {"init": init, "prefill": pre, "steps": steps, "bad": bad, "exact": exact, "filled": True}
         self.decorate_steps(src, random.Random(rng.random()), share=1.0, p_accept=0.35, p_side=0.6)
+        self.decorate_spellings(src, random.Random(rng.random()), share=0.5)
         return self.build(src)
 
     # ------------------------------------------------------------------ collection.normalize_bins
@@ -413,6 +653,7 @@ class C06(Hist1Prop):
         tags = ["nd", f"d:{d}", "bad:" + bad]
         # (drawn last, from a generator of its own: the older draws of the case are what they were)
         ops, nxt = self.decorate_nd(ops, nxt, random.Random(rng.random()), tags, share=0.35)
+        ops, nxt = self.spell_nd(ops, nxt, random.Random(rng.random()), tags, share=0.3)
         if bad == "neg_mul":
             ops.append({"op": "mul", "h": 0, "c": "-2", "k": "pyint", "out": nxt, "expect_refused": True})
         elif bad == "zero_div":
@@ -486,6 +727,9 @@ class C06(Hist1Prop):
                 return fails[:6]
             src = before[op["h"]]
             ret = outs[k]["ret"]
+            if op["op"] == "spell":
+                self.spell_fails(op, before, after, ret, False, True, None, fails)
+                continue
             if op.get("expect_refused"):
                 nonzero = any(Fraction(x) != 0 for x in src["freq"])
                 if ret != "REFUSED" and (op["c"] == "0" or nonzero):
@@ -544,6 +788,7 @@ class C06(Hist1Prop):
                         break
             if len(fails) > 5:
                 break
+        self.commute_fails(ops, outs, fails)
         return fails[:6]
 
     # ------------------------------------------------------------------ histories of the free-arithmetics switch
@@ -635,6 +880,7 @@ class C06(Hist1Prop):
             items.append(block(0))
             for _ in range(rng.randint(1, 3)):
                 items.append(probe() if rng.random() < 0.8 else pos())
+        self.spell_free(items, random.Random(rng.random()), share=0.4)
         return self.build_free({"init": init, "items": items, "nd": nd})
 
     @staticmethod
@@ -677,6 +923,11 @@ class C06(Hist1Prop):
                     ops.append(op)
                 elif t == "bad":
                     ops.append({"op": "invalid", "what": it["what"], "h": st["cur"], "o": 0})
+                elif t == "spell":
+                    op = {"op": "spell", "sp": it["sp"], "h": st["cur"], "o": 0, "c": it["c"], "k": it["k"], "out": fresh()}
+                    if mode:            # (the Lean model has no free arithmetics)
+                        op["untracked"] = True
+                    ops.append(op)
                 else:
                     h = st["cur"]
                     untracked = bool(mode)
@@ -702,6 +953,9 @@ class C06(Hist1Prop):
         tags += sorted({f"probe_{'inside' if modes[i] else 'outside'}:{o['probe']}" for i, o in enumerate(ops) if o.get("probe")})
         if any(o["op"] == "enter_free" and not o["value"] for o in ops):
             tags.append("free:block_false")
+        if any(o["op"] == "spell" for o in ops):
+            tags.append("stream:spellings")
+            tags += sorted({"kind:spell:" + SPELLINGS[o["sp"]] + (":free" if modes[i] else "") for i, o in enumerate(ops) if o["op"] == "spell"})
         return {"kind": "histn" if nd else "hist1", "ops": ops, "tags": tags, "tolerance": True, "sub": "free", "src": src}
 
     # the implementation side of such a history (the blocks are real `with` statements around the ops of impl1 / implnd)
@@ -710,7 +964,7 @@ class C06(Hist1Prop):
         from physt.config import config
         from .. import impl1, implnd
         nd = case["kind"] == "histn"
-        stepper = implnd.step if nd else impl1._step
+        stepper = self.stepper(nd)
         snap = implnd.snapn if nd else impl1.snap1
         ops = case["ops"]
         s = impl1.Store()
@@ -834,7 +1088,53 @@ class C06(Hist1Prop):
             config.free_arithmetics = False
             _, _, final = self.run_free(case, observe=False)
             return {"outs": outs, "log": log, "unobserved_outs": outs[:-1] + [final]}
+        if any(o["op"] == "spell" or (o["op"] == "of_arrays" and o.get("klass")) for o in case["ops"]):
+            outs, log = self.run_chain(case, observe=True)
+            if len(case["ops"]) >= 2:
+                return {"outs": outs, "log": log, "unobserved_outs": outs[:-1] + [self.run_chain(case, observe=False)]}
+            return {"outs": outs, "log": log}
         return super().run_impl(case)
+
+    @staticmethod
+    def stepper(nd):
+        """impl1 / implnd, and the two things they do not know: a spelling, an N-d histogram of a transformed class"""
+        from .. import impl1, implnd
+
+        def step(s, op, log):
+            if op["op"] == "spell":
+                return spell_step(s, op, log)
+            if nd and op["op"] == "of_arrays" and op.get("klass"):
+                import numpy as np
+                import physt.special_histograms as sh
+                try:
+                    axes = [impl1.mk_binning(b) for b in op["axes"]]
+                    shape = tuple(len(b["bins"]) for b in op["axes"])
+                    dt = np.dtype(op["dtype"])
+                    f = impl1.arr(op["freq"], dt).reshape(shape)
+                    e = None if op.get("err2") is None else impl1.arr(op["err2"], dt).reshape(shape)
+                    s.set(op["out"], getattr(sh, op["klass"])(axes, f, errors2=e, missed=impl1.fl(op.get("missed", "0")),
+                                                              keep_missed=op.get("keep", True), axis_names=op["names"]))
+                    return "ok"
+                except Exception as e:
+                    log.append(f"of_arrays: {type(e).__name__}: {e}"[:200])
+                    return impl1.REFUSED
+            return (implnd.step if nd else impl1.step)(s, op, log)
+        return step
+
+    def run_chain(self, case, observe):
+        """impl1.run / implnd.run (and their run_unobserved) with the stepper above"""
+        from .. import impl1, implnd
+        from ..sharing import sharing
+        nd = case["kind"] == "histn"
+        step, snap = self.stepper(nd), (implnd.snapn if nd else impl1.snap1)
+        s, outs, log, ret = impl1.Store(), [], [], None
+        for op in case["ops"]:
+            ret = step(s, op, log)
+            if observe:
+                outs.append({"ret": ret, "regs": [None if h is None else snap(h) for h in s.regs], "_sharing": sharing(s.regs)})
+        if observe:
+            return outs, log
+        return {"ret": ret, "regs": [None if h is None else snap(h) for h in s.regs], "_sharing": sharing(s.regs)}
 
     # the model side: everything but the switch
     @staticmethod
@@ -844,6 +1144,20 @@ class C06(Hist1Prop):
             return "drop"
         if op["op"] == "arr":
             return {"op": "invalid", "what": "array_operand", "h": op["h"]}
+        if op["op"] == "spell":
+            # the operator forms with a number the model knows are its mul / div / refused 2/h; every other spelling never
+            # reaches the arithmetic of the (unchanged) library: numpy answers from the bare frequencies, nothing to follow
+            k, sp = op["k"], op["sp"]
+            if k.startswith("red:"):
+                k = model_kind(k)
+            if sp == "c/h":
+                return {"op": "invalid", "what": "rdiv", "h": op["h"]}
+            if sp in MODEL_SPELLING and k in MODEL_KINDS:
+                name, reflected = MODEL_SPELLING[sp]
+                return {"op": name, "h": op["h"], "c": op["c"], "k": k, "out": op["out"], "reflected": reflected}
+            if sp in MODEL_SPELLING and (k.startswith(("0d:", "red0d:")) or arraylike(k)):
+                return {"op": "invalid", "what": "array_operand_0d", "h": op["h"]}
+            return "drop"
         k = op.get("k")
         if op["op"] in SCALINGS and is_carrier(k):
             if k.startswith("red:"):
@@ -865,11 +1179,11 @@ class C06(Hist1Prop):
 
     def diff(self, case, model_ok, io):
         ops = case["ops"]
-        if case.get("sub") == "free" and isinstance(model_ok, list):
+        if isinstance(model_ok, list) and any(self.model_op(o) == "drop" for o in ops):
             # the model followed the ops outside free arithmetics: compare those, register by register (the registers that
             # only the free-arithmetics operations wrote do not exist for the model)
             keep = [i for i, o in enumerate(ops) if self.model_op(o) != "drop"]
-            hidden = {o["out"] for o in ops if o.get("untracked") and "out" in o}
+            hidden = {o["out"] for o in ops if "out" in o and (o.get("untracked") or self.model_op(o) == "drop")}
             proj = []
             for i in keep:
                 o = io["outs"][i]
@@ -931,6 +1245,9 @@ class C06(Hist1Prop):
             if any(t is None or (isinstance(t, str) and t.lstrip("-") in ("inf", "nan")) for t in values):
                 return fails[:6]
             nonzero = any(Fraction(x) != 0 for x in src["freq"])
+            if op["op"] == "spell":
+                self.spell_fails(op, before, after, ret, modes[k], nd, eq, fails, where)
+                continue
             call = spelled(op) if op["op"] in SCALINGS else (f"{op['sp']} with an array operand ({op['operand']})" if op["op"] == "arr" else op.get("what"))
             if op["op"] == "invalid":                      # h*h, h/h, 2/h: refused in every mode
                 if ret != "REFUSED":
@@ -978,7 +1295,76 @@ class C06(Hist1Prop):
                 self.scaling_fails_1d(op, src, dst, after[op["h"]], eq, fails)
             if len(fails) > 5:
                 break
+        self.commute_fails(ops, outs, fails)
         return fails[:6]
+
+    # ------------------------------------------------------------------ what the statement says about ONE spelling
+    def spell_fails(self, op, before, after, ret, free, nd, eq, fails, where="outside free arithmetics"):
+        fam = SPELLINGS[op["sp"]]
+        call = spelled(op)
+        src = before[op["h"]]
+        kd, c = op["k"], Fraction(op["c"])
+        nonzero = any(Fraction(x) != 0 for x in src["freq"])
+        if ret != "ok":
+            # no histogram came back (an exception, NotImplemented, a bare array numpy made of the frequencies): then
+            # nothing has happened to any histogram
+            changed = untouched(before, after)
+            if changed is not None:
+                fails.append(f"refused_changed: {call} {where} gave no histogram ({ret}) but {changed}")
+            if fam in ("rdiv", "hh") and (ret == "hist_inside" or ret.startswith("other:")):
+                fails.append(f"accepted_invalid: {call} {where} was not refused: it returned {ret}")
+            if op["sp"] in MUST_ACCEPT and kd in SCALAR_KINDS and c > 0:
+                fails.append(f"refused_valid: {call} {where} gave no histogram ({ret})")
+            return
+        dst = after[op["out"]] if op["out"] < len(after) else None
+        if dst is None:
+            fails.append(f"no_result: {call} returned without a result")
+            return
+        if fam == "rdiv":
+            fails.append(f"accepted_invalid: {call} {where} -- a histogram as the divisor -- was not refused: it returned a "
+                         f"{'N-d ' if nd else ''}histogram with contents {dst['freq'][:6]} (the operand's: {src['freq'][:6]})")
+            return
+        if fam == "hh":
+            fails.append(f"accepted_invalid: {call} {where} -- histogram with histogram -- was not refused: it returned a "
+                         f"histogram with contents {dst['freq'][:6]}")
+            return
+        if fam == "unpinned":
+            return
+        g = c if fam == "mul" else (1 / c if fam == "div" else Fraction(-1))
+        if fam != "neg" and arraylike(kd) and not free:
+            fails.append(f"accepted_invalid: {call} (an array operand) was accepted {where}")
+            return
+        if g < 0 and not free:
+            if nonzero:
+                fails.append(f"accepted_invalid: {call} (a negative factor) was accepted {where}")
+            return
+        want = [Fraction(x) * g for x in src["freq"]] + [Fraction(x) * g * g for x in src["err2"]]
+        if beyond_dtype(dst["dtype"], want):
+            return          # numpy wraps around in that integer type: outside the statement
+        # an array operand (under free arithmetics a 0-d array may be taken for one) says nothing about the missed values
+        # and the statistics; a scalar does
+        partial = fam != "neg" and free and (arraylike(kd) or kd.startswith(("0d:", "red0d:")))
+        pseudo = dict(op, op="div" if fam == "div" else "mul", c="-1" if fam == "neg" else op["c"], spelling=True)
+        if nd:
+            self.scaling_fails_nd(pseudo, src, dst, after[op["h"]], fails, missed=not partial)
+        else:
+            self.scaling_fails_1d(pseudo, src, dst, after[op["h"]], eq, fails, stats=not partial, missed=not partial)
+
+    @staticmethod
+    def commute_fails(ops, outs, fails):
+        """c*h == h*c: the two operator forms on the same histogram with the same number give the same histogram"""
+        seen = {}
+        for k, op in enumerate(ops):
+            if op.get("op") != "spell":
+                seen = {}
+                continue
+            if op["sp"] in ("c*h", "h*c") and outs[k]["ret"] == "ok" and outs[k]["regs"][op["out"]] is not None:
+                pub = {x: y for x, y in outs[k]["regs"][op["out"]].items() if not x.startswith("_")}
+                key = (op["h"], op["c"], op["k"])
+                if key in seen and seen[key][0] != op["sp"] and seen[key][1] != pub:
+                    keys = sorted(x for x in pub if pub[x] != seen[key][1].get(x))
+                    fails.append(f"commute: c*h and h*c differ in {keys[:4]} for c = {op['k']}({op['c']})")
+                seen.setdefault(key, (op["sp"], pub))
 
     @staticmethod
     def build(src):
@@ -987,7 +1373,10 @@ class C06(Hist1Prop):
         nxt = 1
         for s in src["steps"]:
             t = s["t"]
-            if s.get("side"):
+            if t == "spell":
+                ops.append({"op": "spell", "sp": s["sp"], "h": cur, "o": 0, "c": s["c"], "k": s["k"], "out": nxt})
+                nxt += 1
+            elif s.get("side"):
                 # the factor in a carrier that may be refused: the result goes to a register nobody reads (copying
                 # spellings), or the current histogram is scaled where it stands (in-place spellings)
                 name = {"mul": "mul", "rmul": "mul", "imul": "imul", "div": "div", "idiv": "idiv"}[t]
@@ -1047,6 +1436,9 @@ class C06(Hist1Prop):
             tags += sorted({"carrier:" + o["k"].split(":")[0] + ("" if ":" not in o["k"] else ":" + o["k"].split(":")[-1])
                             for o in ops if is_carrier(o.get("k"))})
             tags += sorted({"carrier_spelling:" + ("rmul" if o.get("reflected") else o["op"]) for o in ops if o.get("two")})
+        if any(o["op"] == "spell" for o in ops):
+            tags.append("stream:spellings")
+            tags += sorted({"kind:spell:" + SPELLINGS[o["sp"]] for o in ops if o["op"] == "spell"})
         return {"kind": "hist1", "ops": ops, "tags": tags, "src": src, "tolerance": tol}
 
     # ------------------------------------------------------------------ the small finite cores, completely
@@ -1125,6 +1517,61 @@ class C06(Hist1Prop):
                                             "nd": nd})
                     case["tags"].append("exhaustive")
                     out.append(case)
+        out += self.spelling_grid()
+        return out
+
+    GRID_CARRIERS = [("2", "pyint"), ("1/2", "pyfloat"), ("2", "int8"), ("3", "int16"), ("2", "int32"), ("4", "int64"),
+                     ("2", "uint8"), ("2", "uint16"), ("3", "uint32"), ("2", "uint64"), ("2", "float16"), ("1/2", "float32"),
+                     ("4", "float64"), ("2", "red:sum:int64"),
+                     ("2", "0d:float64"), ("2", "0d:int64"), ("1/2", "red0d:float64"), ("1", "pybool"), ("1", "npbool"),
+                     ("2", "fraction"), ("1/2", "decimal"),
+                     ("-2", "pyint"), ("-1/2", "float64"), ("-2", "int8"),
+                     ("2", "nd:float64"), ("2", "nd:int64")]
+
+    def spelling_grid(self):
+        """stream:spellings, completely: every numeric carrier x every spelling x every kind of histogram (1-D with valid
+        statistics from weighted data, 1-D entered by fill_n, 1-D of a transformed class, 2-d, 2-d of a transformed
+        class), outside free arithmetics and (weighted 1-D, 2-d, transformed 2-d) inside a free-arithmetics block followed
+        by the same spellings after the block"""
+        b = gen1.binning_json([[0.0, 1.0], [1.0, 2.0], [2.0, 4.0]], form="pairs")
+        ax = gen1.binning_json([[0.0, 1.0], [1.0, 2.0]], form="pairs")
+        data = gen1.enc_vals([0.5, 1.5, 1.5, 3.0, -1.0, 7.0, 0.25])
+        weighted = {"op": "construct", "out": 0, "binning": b, "data": data, "weights": ["1", "2", "1/2", "3", "1", "1", "4"],
+                    "wkind": "float64", "keep": True}
+        radial = {"op": "of_arrays", "out": 0, "binning": b, "freq": ["4", "0", "6"], "err2": ["2", "1", "3"], "under": "0",
+                  "over": "2", "inner": "0", "dtype": "int64", "keep": True, "klass": "RadialHistogram"}
+        two_d = {"op": "of_arrays", "out": 0, "axes": [ax, ax], "freq": ["1", "0", "2", "3"], "err2": None, "missed": "2",
+                 "dtype": "int64", "keep": True, "names": ["ax0", "ax1"]}
+        polar = dict(two_d, freq=["4", "8", "2", "6"], err2=["1", "2", "3", "4"], dtype="float64", klass="PolarHistogram")
+        with_c = [sp for sp in SPELLINGS if "c" in sp.replace("reciprocal", "")]
+        without_c = [sp for sp in SPELLINGS if sp not in with_c]
+        out = []
+        for n, (c, kd) in enumerate(self.GRID_CARRIERS):
+            sps = with_c + (without_c if n == 0 else [])
+            items = [{"t": "spell", "sp": sp, "c": c, "k": kd} for sp in sps]
+            exact = power_of_two(Fraction(c))
+            # outside free arithmetics
+            for name, init in (("1d", weighted), ("1d_filled", None), ("1d_transformed", radial)):
+                src = {"init": init, "steps": [dict(i, side=True) for i in items], "bad": "mul_hist", "exact": exact}
+                if init is None:
+                    src["init"] = {"op": "empty", "out": 0, "binning": b, "keep": True, "dtype": None}
+                    src["prefill"] = [{"op": "fill_n", "h": 0, "vs": data, "ws": None, "wkind": "int64"}]
+                    src["filled"] = True
+                case = self.build(src)
+                case["tags"] += ["exhaustive", "grid:" + name]
+                out.append(case)
+            for name, init in (("2d", two_d), ("2d_transformed", polar)):
+                ops = [init] + [{"op": "spell", "sp": i["sp"], "h": 0, "o": 0, "c": c, "k": kd, "out": j + 1} for j, i in enumerate(items)]
+                out.append({"kind": "histn", "ops": ops, "tolerance": True, "sub": "nd",
+                            "tags": ["nd", "d:2", "stream:spellings", "exhaustive", "grid:" + name]})
+            # inside a free-arithmetics block, and after it
+            if kd in ("fraction", "decimal", "pybool", "npbool"):
+                continue
+            for name, init, nd in (("1d", weighted, False), ("2d", two_d, True), ("2d_transformed", polar, True)):
+                case = self.build_free({"init": init, "nd": nd, "items": [
+                    {"t": "block", "value": True, "how": "normal", "body": [dict(i) for i in items]}] + [dict(i) for i in items[::3]]})
+                case["tags"] += ["exhaustive", "grid:free:" + name]
+                out.append(case)
         return out
 
     def neighbours(self, case):
@@ -1147,7 +1594,13 @@ class C06(Hist1Prop):
             return
         if "src" in case and not case.get("sub"):
             for i, st in enumerate(case["src"]["steps"]):
-                if st.get("side"):
+                if st["t"] == "spell":
+                    for sp in SPELLINGS:
+                        if sp != st["sp"] and SPELLINGS[sp] == SPELLINGS[st["sp"]]:
+                            src = copy.deepcopy(case["src"])
+                            src["steps"][i]["sp"] = sp
+                            yield self.build(src)
+                elif st.get("side"):
                     for t in ("mul", "rmul", "imul", "div", "idiv"):
                         if t != st["t"] and not (st["k"] == "fraction" and t == "idiv" and not ENABLE_INPLACE_DIV_BY_FRACTION):
                             src = copy.deepcopy(case["src"])
@@ -1187,7 +1640,7 @@ class C06(Hist1Prop):
                 yield self.build(s2)
 
     @staticmethod
-    def scaling_fails_nd(op, src, dst, operand_after, fails):
+    def scaling_fails_nd(op, src, dst, operand_after, fails, missed=True):
         """everything the statement pins about ONE accepted scaling of an N-d histogram"""
         T = Fraction(1, 10**6)
 
@@ -1207,32 +1660,33 @@ class C06(Hist1Prop):
             return
         c = Fraction(op["c"]); g = c if op["op"] in ("mul", "imul") else 1 / c
         if not all(y is not None and close(x * g, y) for x, y in zip(F0, F1)):
-            fails.append(f"scale_content: ND {op['op']} by {op['c']}: contents {src['freq']} became {dst['freq']}")
+            fails.append(f"scale_content: ND {spelled(op) if op.get('spelling') else op['op'] + ' by ' + op['c']}: contents {src['freq']} became {dst['freq']}")
         if not all(y is not None and close(x * g * g, y) for x, y in zip(E0, E1)):
-            fails.append(f"scale_err2: ND {op['op']} by {op['c']}: squared errors {src['err2']} became {dst['err2']}")
+            fails.append(f"scale_err2: ND {spelled(op) if op.get('spelling') else op['op'] + ' by ' + op['c']}: squared errors {src['err2']} became {dst['err2']}")
         m0, m1 = num(src["missed"]), num(dst["missed"])
-        if m0 is not None and (m1 is None or not close(m0 * g, m1)):
+        if missed and m0 is not None and (m1 is None or not close(m0 * g, m1)):
             fails.append(f"scale_missed: ND {spelled(op)}: missed {src['missed']} became {dst['missed']}")
 
     @staticmethod
-    def scaling_fails_1d(op, src_snap, dst, operand_after, eq, fails, stats=True):
+    def scaling_fails_1d(op, src_snap, dst, operand_after, eq, fails, stats=True, missed=True):
         """everything the statement pins about ONE accepted scaling of a 1-D histogram: contents and the three missed slots
         times the factor, squared errors times its square, bins and operand untouched, and the recorded statistics (weight
         times the factor; mean, variance, minimum, maximum as they were; still valid when they were valid)"""
         c = Fraction(op["c"])
         f = c if op["op"] in ("mul", "imul") else 1 / c
         how = spelled(op)
+        by = how if op.get("spelling") else f"{op['op']} by {op['c']}"
         if dst["bins"] != src_snap["bins"]:
             fails.append("bins_changed: scaling changed the bins")
         for i, (x, y) in enumerate(zip(src_snap["freq"], dst["freq"])):
             if not eq(rs(Fraction(x) * f), y, "f"):
-                fails.append(f"scale_content: {op['op']} by {op['c']}: content {x} became {y}, expected {Fraction(x)*f}")
+                fails.append(f"scale_content: {by}: content {x} became {y}, expected {Fraction(x)*f}")
                 break
         for i, (x, y) in enumerate(zip(src_snap["err2"], dst["err2"])):
             if not eq(rs(Fraction(x) * f * f), y, "e"):
-                fails.append(f"scale_err2: {op['op']} by {op['c']}: squared error {x} became {y}, expected {Fraction(x)*f*f}")
+                fails.append(f"scale_err2: {by}: squared error {x} became {y}, expected {Fraction(x)*f*f}")
                 break
-        for m in ("under", "over", "inner"):
+        for m in ("under", "over", "inner") if missed else ():
             x, y = src_snap[m], dst[m]
             if x is not None and not eq(rs(Fraction(x) * f), y, "m"):
                 fails.append(f"scale_missed: {how}: {m} {x} became {y}, expected {Fraction(x)*f}")
@@ -1292,6 +1746,9 @@ class C06(Hist1Prop):
                     fails.append(f"non_finite: register {op['h']} holds a non-finite content or squared error before step {k} "
                                  f"although every factor and content is finite")
                 return fails[:6]
+            if op["op"] == "spell":
+                self.spell_fails(op, before, after, outs[k]["ret"], False, False, eq, fails)
+                continue
             if op.get("expect_refused") or op["op"] == "invalid":
                 src_snap = before[op["h"]]
                 nonzero = any(Fraction(x) != 0 for x in src_snap["freq"])
@@ -1333,6 +1790,7 @@ class C06(Hist1Prop):
                         break
                 if not op.get("inplace") and after[op["h"]] != src_snap:
                     fails.append("operand_modified: normalize() modified its operand")
+        self.commute_fails(ops, outs, fails)
         # commutation and (h*c)/c == h
         for k, op in enumerate(ops):
             if op["op"] == "div" and k > 0 and ops[k - 1]["op"] == "mul" and ops[k - 1]["out"] == op["h"] and ops[k - 1]["c"] == op["c"] \
